@@ -21,22 +21,22 @@ LB == <<123, 123>>
 RB == <<125, 125>>
 UpperByte(b) == IF b >= 97 /\ b <= 122 THEN b - 32 ELSE b
 LowerByte(b) == IF b >= 65 /\ b <= 90 THEN b + 32 ELSE b
-PN(p) == IF "n" \in DOMAIN p THEN p.n ELSE 0
-PB2(p) == IF "b" \in DOMAIN p THEN p.b ELSE <<>>
-IntText(n) == LET RECURSIVE D(_)
+TmplN(p) == IF "n" \in DOMAIN p THEN p.n ELSE 0
+TmplB2(p) == IF "b" \in DOMAIN p THEN p.b ELSE <<>>
+TmplIntText(n) == LET RECURSIVE D(_)
                   D(m) == IF m < 10 THEN <<48 + m>> ELSE Append(D(m \div 10), 48 + (m % 10))
               IN IF n < 0 THEN <<45>> \o D(0 - n) ELSE D(n)
-Quoted(x) == <<34>> \o x \o <<34>>
-Pipe(name, f) == LB \o <<46>> \o name \o <<32, 124, 32>> \o f \o RB
+TmplQuoted(x) == <<34>> \o x \o <<34>>
+TmplPipe(name, f) == LB \o <<46>> \o name \o <<32, 124, 32>> \o f \o RB
 PartText(p) == CASE p.t = "lit" -> p.s
-                 [] p.t = "lower" -> Pipe(p.name, <<108, 111, 119, 101, 114>>)
-                 [] p.t = "trimspace" -> Pipe(p.name, <<84, 114, 105, 109, 83, 112, 97, 99, 101>>)
-                 [] p.t = "trunc" -> Pipe(p.name, <<116, 114, 117, 110, 99, 32>> \o IntText(PN(p)))
-                 [] p.t = "replace" -> Pipe(p.name, <<114, 101, 112, 108, 97, 99, 101, 32>> \o Quoted(p.s) \o <<32>> \o Quoted(PB2(p)))
-                 [] p.t = "alignleft" -> LB \o <<97, 108, 105, 103, 110, 76, 101, 102, 116, 32>> \o IntText(PN(p)) \o <<32, 46>> \o p.name \o RB
-                 [] p.t = "alignright" -> LB \o <<97, 108, 105, 103, 110, 82, 105, 103, 104, 116, 32>> \o IntText(PN(p)) \o <<32, 46>> \o p.name \o RB
-                 [] p.t = "default" -> Pipe(p.name, <<100, 101, 102, 97, 117, 108, 116, 32>> \o Quoted(p.s))
-                 [] p.t = "repeat" -> Pipe(p.name, <<114, 101, 112, 101, 97, 116, 32>> \o IntText(PN(p)))
+                 [] p.t = "lower" -> TmplPipe(p.name, <<108, 111, 119, 101, 114>>)
+                 [] p.t = "trimspace" -> TmplPipe(p.name, <<84, 114, 105, 109, 83, 112, 97, 99, 101>>)
+                 [] p.t = "trunc" -> TmplPipe(p.name, <<116, 114, 117, 110, 99, 32>> \o TmplIntText(TmplN(p)))
+                 [] p.t = "replace" -> TmplPipe(p.name, <<114, 101, 112, 108, 97, 99, 101, 32>> \o TmplQuoted(p.s) \o <<32>> \o TmplQuoted(TmplB2(p)))
+                 [] p.t = "alignleft" -> LB \o <<97, 108, 105, 103, 110, 76, 101, 102, 116, 32>> \o TmplIntText(TmplN(p)) \o <<32, 46>> \o p.name \o RB
+                 [] p.t = "alignright" -> LB \o <<97, 108, 105, 103, 110, 82, 105, 103, 104, 116, 32>> \o TmplIntText(TmplN(p)) \o <<32, 46>> \o p.name \o RB
+                 [] p.t = "default" -> TmplPipe(p.name, <<100, 101, 102, 97, 117, 108, 116, 32>> \o TmplQuoted(p.s))
+                 [] p.t = "repeat" -> TmplPipe(p.name, <<114, 101, 112, 101, 97, 116, 32>> \o TmplIntText(TmplN(p)))
                  [] p.t = "label" -> LB \o <<46>> \o p.name \o RB
                  [] p.t = "line" -> LB \o <<95, 95, 108, 105, 110, 101, 95, 95>> \o RB
                  [] p.t = "upper" -> LB \o <<46>> \o p.name \o <<32, 124, 32, 84, 111, 85, 112, 112, 101, 114>> \o RB
@@ -44,34 +44,34 @@ PartText(p) == CASE p.t = "lit" -> p.s
 RECURSIVE TmplText(_)
 TmplText(ps) == IF ps = <<>> THEN <<>> ELSE PartText(ps[1]) \o TmplText(Tail(ps))
 Fails(ps) == \E i \in DOMAIN ps : ps[i].t = "fail"
-IsSpaceB(c) == c \in {9, 10, 11, 12, 13, 32}
-RECURSIVE TrimL(_)
-TrimL(v) == IF v # <<>> /\ IsSpaceB(v[1]) THEN TrimL(Tail(v)) ELSE v
-RECURSIVE TrimR(_)
-TrimR(v) == IF v # <<>> /\ IsSpaceB(v[Len(v)]) THEN TrimR(SubSeq(v, 1, Len(v) - 1)) ELSE v
-Trunc(n, v) == IF n < 0 /\ Len(v) + n > 0 THEN SubSeq(v, Len(v) + n + 1, Len(v))
+TmplIsSpace(c) == c \in {9, 10, 11, 12, 13, 32}
+RECURSIVE TmplTrimL(_)
+TmplTrimL(v) == IF v # <<>> /\ TmplIsSpace(v[1]) THEN TmplTrimL(Tail(v)) ELSE v
+RECURSIVE TmplTrimR(_)
+TmplTrimR(v) == IF v # <<>> /\ TmplIsSpace(v[Len(v)]) THEN TmplTrimR(SubSeq(v, 1, Len(v) - 1)) ELSE v
+TmplTrunc(n, v) == IF n < 0 /\ Len(v) + n > 0 THEN SubSeq(v, Len(v) + n + 1, Len(v))
                ELSE IF n >= 0 /\ Len(v) > n THEN SubSeq(v, 1, n) ELSE v
-StartsAt(v, i, a) == i + Len(a) - 1 <= Len(v) /\ SubSeq(v, i, i + Len(a) - 1) = a
-RECURSIVE ReplAll(_, _, _, _)
-ReplAll(v, i, a, b) == IF i > Len(v) THEN <<>>
-                       ELSE IF StartsAt(v, i, a) THEN b \o ReplAll(v, i + Len(a), a, b)
-                       ELSE <<v[i]>> \o ReplAll(v, i + 1, a, b)
-Spaces(n) == [i \in 1..n |-> 32]
-AlignL(n, v) == IF n < 0 THEN v ELSE IF Len(v) > n THEN SubSeq(v, 1, n) ELSE v \o Spaces(n - Len(v))
-AlignR(n, v) == IF n < 0 THEN v ELSE IF Len(v) > n THEN SubSeq(v, Len(v) - n + 1, Len(v)) ELSE Spaces(n - Len(v)) \o v
-RECURSIVE Rep(_, _)
-Rep(n, v) == IF n <= 0 THEN <<>> ELSE v \o Rep(n - 1, v)
+TmplStartsAt(v, i, a) == i + Len(a) - 1 <= Len(v) /\ SubSeq(v, i, i + Len(a) - 1) = a
+RECURSIVE TmplReplAll(_, _, _, _)
+TmplReplAll(v, i, a, b) == IF i > Len(v) THEN <<>>
+                       ELSE IF TmplStartsAt(v, i, a) THEN b \o TmplReplAll(v, i + Len(a), a, b)
+                       ELSE <<v[i]>> \o TmplReplAll(v, i + 1, a, b)
+TmplSpaces(n) == [i \in 1..n |-> 32]
+TmplAlignL(n, v) == IF n < 0 THEN v ELSE IF Len(v) > n THEN SubSeq(v, 1, n) ELSE v \o TmplSpaces(n - Len(v))
+TmplAlignR(n, v) == IF n < 0 THEN v ELSE IF Len(v) > n THEN SubSeq(v, Len(v) - n + 1, Len(v)) ELSE TmplSpaces(n - Len(v)) \o v
+RECURSIVE TmplRep(_, _)
+TmplRep(n, v) == IF n <= 0 THEN <<>> ELSE v \o TmplRep(n - 1, v)
 \* the functions are modelled on ASCII values with a non-empty needle and a repeat count that is not negative
-PartWellFormed(p) == /\ (p.t = "replace" => p.s # <<>>) /\ (p.t = "repeat" => PN(p) >= 0)
-FunOf(p, v) == CASE p.t = "lower" -> [i \in DOMAIN v |-> LowerByte(v[i])]
-                 [] p.t = "trimspace" -> TrimR(TrimL(v))
-                 [] p.t = "trunc" -> Trunc(PN(p), v)
-                 [] p.t = "replace" -> ReplAll(v, 1, p.s, PB2(p))
-                 [] p.t = "alignleft" -> AlignL(PN(p), v)
-                 [] p.t = "alignright" -> AlignR(PN(p), v)
+PartWellFormed(p) == /\ (p.t = "replace" => p.s # <<>>) /\ (p.t = "repeat" => TmplN(p) >= 0)
+TmplFunOf(p, v) == CASE p.t = "lower" -> [i \in DOMAIN v |-> LowerByte(v[i])]
+                 [] p.t = "trimspace" -> TmplTrimR(TmplTrimL(v))
+                 [] p.t = "trunc" -> TmplTrunc(TmplN(p), v)
+                 [] p.t = "replace" -> TmplReplAll(v, 1, p.s, TmplB2(p))
+                 [] p.t = "alignleft" -> TmplAlignL(TmplN(p), v)
+                 [] p.t = "alignright" -> TmplAlignR(TmplN(p), v)
                  [] p.t = "default" -> IF v = <<>> THEN p.s ELSE v
-                 [] p.t = "repeat" -> Rep(PN(p), v)
-Funs == {"lower", "trimspace", "trunc", "replace", "alignleft", "alignright", "default", "repeat"}
+                 [] p.t = "repeat" -> TmplRep(TmplN(p), v)
+TmplFuns == {"lower", "trimspace", "trunc", "replace", "alignleft", "alignright", "default", "repeat"}
 \* Lookup(name) gives the label's value or <<>>
 RECURSIVE Expand(_, _, _)
 Expand(ps, Lookup(_), line) ==
@@ -82,5 +82,5 @@ Expand(ps, Lookup(_), line) ==
           [] p.t = "line" -> line
           [] p.t = "upper" -> [i \in DOMAIN Lookup(p.name) |-> UpperByte(Lookup(p.name)[i])]
           [] p.t = "fail" -> <<>>
-          [] p.t \in Funs -> FunOf(p, Lookup(p.name))) \o Expand(Tail(ps), Lookup, line)
+          [] p.t \in TmplFuns -> TmplFunOf(p, Lookup(p.name))) \o Expand(Tail(ps), Lookup, line)
 =============================================================================
